@@ -42,6 +42,10 @@ def hot_points(fam, cfg):
     return [F.BLOCK_OF.get(fam, 64)]
 
 
+class Abandon(Exception):
+    """The library refused a non-contiguous memoryview: nothing further is judged on this history."""
+
+
 class Machine(object):
     PROPERTY = "C09"
     LEVEL = "exploration"
@@ -52,6 +56,8 @@ class Machine(object):
 
     # ------------------------------------------------------------------ gen
     def _carrier(self, rng):
+        if rng.random() < 0.04:
+            return [rng.choice(F.STRIDED), rng.randrange(16), False]
         return [rng.choice(F.CARRIERS), rng.randrange(16), rng.random() < 0.5]
 
     HUGE = [["SHA256", [1 << 29]], ["SHA224", [(1 << 29) + 8]], ["SHA256", [(1 << 29) - 1, 65]], ["SHA256", [1 << 28, 1 << 28, 100]],
@@ -144,6 +150,10 @@ class Machine(object):
         n = pick_size(rng, big=0.1)
         om = rng.choice(["ret", "bytearray", "mv_rw", "mv_off", "alias_a", "alias_b"])
         ca, cb = self._carrier(rng), self._carrier(rng)
+        if ca[0] in F.STRIDED:
+            ca[0] = "mv_rw"
+        if cb[0] in F.STRIDED:
+            cb[0] = "mv_off"
         if om == "alias_a" and ca[0] in ("bytes", "mv_ro"):
             ca[0] = "mv_off"
         if om == "alias_b" and cb[0] in ("bytes", "mv_ro"):
@@ -159,14 +169,17 @@ class Machine(object):
     # ------------------------------------------------------------------ run
     def run(self, case, ctx):
         g = case["group"]
-        if g == "cipher":
-            self.run_cipher(case, ctx)
-        elif g == "hash":
-            self.run_hash(case, ctx)
-        elif g == "huge":
-            self.run_huge(case, ctx)
-        else:
-            self.run_strxor(case, ctx)
+        try:
+            if g == "cipher":
+                self.run_cipher(case, ctx)
+            elif g == "hash":
+                self.run_hash(case, ctx)
+            elif g == "huge":
+                self.run_huge(case, ctx)
+            else:
+                self.run_strxor(case, ctx)
+        except Abandon:
+            ctx.probe("history_ended_at_refused_view")
 
     def run_huge(self, case, ctx):
         """Pieces of half a gigabyte and more (the bit counters of the 32-bit-word hashes carry there): the digest against
@@ -221,6 +234,34 @@ class Machine(object):
         """Hand ``seg`` to fn(inbuf, outbuf) through carrier ``car`` and output
         mode ``omode``; returns the bytes produced."""
         carrier, off, scribble = car
+        if carrier in F.STRIDED:
+            # a memoryview that is not contiguous: refused (the history ends there) or processed as the bytes it shows
+            if len(seg) < 2:
+                carrier = "mv_rw"
+            else:
+                c = F.Carried(seg, carrier, off)
+                ob = F.OutBuf(len(seg), omode, off + 3) if omode in ("bytearray", "mv_rw", "mv_off") else None
+                ctx.fault("carrier." + carrier)
+                try:
+                    ret = fn(c.obj, ob.obj if ob is not None else (c.obj if omode == "alias" else None))
+                except (TypeError, ValueError, BufferError):
+                    # refused: possibly half way through the piece (the Python layers slice before the native call
+                    # refuses).  Nothing is claimed about the object afterwards; the caller's memory must be intact.
+                    ctx.probe("noncontiguous_view_refused")
+                    self._guard(ctx, fam, "input-modified", c.unchanged())
+                    if ob is not None:
+                        self._guard(ctx, fam, "output-guard", ob.guards_ok())
+                    raise Abandon()
+                else:
+                    ctx.probe("noncontiguous_view_processed")
+                    if omode == "alias":
+                        produced = c.current()
+                    else:
+                        self._guard(ctx, fam, "input-modified", c.unchanged())
+                        produced = ob.value() if ob is not None else ret
+                        if ob is not None:
+                            self._guard(ctx, fam, "output-guard", ob.guards_ok())
+                    return produced
         c = F.Carried(seg, carrier, off)
         ctx.state((fam, what, carrier, omode or "-", len(seg) % 16))
         ob = None
